@@ -128,6 +128,14 @@ if __name__ == '__main__':
     if pl.get('mode') == 'replay': rep.case('replay', pl['input']); check_case(rep, pl['input'], 'replay')
     else:
         rng = random.Random(pl.get('seed', 0))
+        # every route at least twice per run, whatever the random choice below (a detection must not rest on chance)
+        for j, route in enumerate(2 * ['excel_fs_sparse', 'excel_fs', 'setfl_fs_class', 'tabeam_fs_class']):
+            c = gen_case(rng)
+            if c['route'].startswith('potable'): c = gen_case(random.Random(1000 + j)); 
+            if c['route'].startswith('potable'): continue
+            c['route'] = route
+            if route == 'excel_fs_sparse' and len(c['declared']) == len(c['model']['elements']) ** 2 and len(c['declared']) > 1: c['declared'] = c['declared'][:-1]
+            rep.case(route, c); check_case(rep, c, 'route-%s-%d' % (route, j))
         for i in range(pl.get('n', 40)):
             c = gen_case(rng); rep.case(c['route'], c); check_case(rep, c, 'seeded-%d' % i)
     rep.finish()
